@@ -116,14 +116,43 @@ def run_orders(ctx, prop):
     n_trees = ctx.scale(21, 45)
     limit = ctx.scale(150, 5100)
     all_exhaustive = True
-    for ti in range(n_trees):
+    for ti in range(n_trees + 1):
         keys = chain.Keys(rng, 4)
-        use_real = (ti % 3 == 0)
-        genesis = None if use_real else chain.custom_genesis(keys, target=bytes([0x3f]) + b"\xff" * 31)
+        tall = (ti == n_trees)
+        use_real = (ti % 3 == 0) and not tall
+        genesis = None if use_real else chain.custom_genesis(keys, target=(b"\xff" * 32) if tall else bytes([0x3f]) + b"\xff" * 31)
         tree = chain.Tree(rng, keys, genesis=genesis)
         small = ti < n_trees * 2 // 3
-        n = rng.randrange(5, ctx.scale(8, 9)) if small else rng.randrange(9, 22)
-        boundary = (not small) and ti % 2 == 0
+        if tall:
+            # one tall tree per run (several hundred blocks; numbers above 256, histories longer than 100 blocks): a trunk with
+            # spends, two branches that part at height 98 and both pass height 100 (the longer one, with a spend of its own,
+            # becomes the main chain), and near the top — above height 257 — pairs of competing blocks of equal height
+            def ext(parent, n_tx=0, miner=None):
+                return tree.extend(parent, n_tx=n_tx, dt=120, data_len=0, miner=miner)
+            cur = tree.blocks[0]
+            while cur.height < 98:
+                cur = ext(cur.hash(), n_tx=(rng.randrange(0, 3) if cur.height % 9 == 3 else 0))
+            a = cur
+            for _ in range(3):
+                a = ext(a.hash(), miner=1)
+            b_ = ext(cur.hash(), n_tx=1, miner=2)
+            for _ in range(3):
+                b_ = ext(b_.hash(), miner=2)
+            cur = b_
+            top = (259 if prop == "C04" else 104) + rng.randrange(0, 4)      # (the full per-block digest is quadratic)
+            while cur.height < top:
+                cur = ext(cur.hash(), n_tx=(1 if cur.height % 40 == 7 else 0))
+            x1 = ext(cur.hash(), miner=0)
+            x2 = ext(cur.hash(), miner=3)
+            y2 = ext(x2.hash(), n_tx=1)
+            y1 = ext(x1.hash())
+            ext(y1.hash())
+            ext(y2.hash())
+            res.count("tall_trees")
+            small = False
+            n = 0
+        n = 0 if tall else rng.randrange(5, ctx.scale(8, 9)) if small else rng.randrange(9, 22)
+        boundary = (not small) and ti % 2 == 0 and not tall
         if boundary:
             # competing tips whose targets differ: siblings at a target-readjustment height with very different
             # timestamps, and branches of different lengths on top of them
@@ -137,7 +166,7 @@ def run_orders(ctx, prop):
             for _ in range(rng.randrange(1, 5)):
                 tree.extend(rng.choice(sibs + tree.blocks[-2:]).hash())
             n = 0
-        if (not small) and (not boundary) and ti % 4 == 3:
+        if (not small) and (not boundary) and ti % 4 == 3 and not tall:
             # a deep tree: tips that are out-run by far more than a handful of blocks (a two-block side branch off the
             # first block, a late fork low on the main branch) stay tips
             g0 = tree.blocks[0].hash()
@@ -158,7 +187,28 @@ def run_orders(ctx, prop):
             else:
                 tree.extend()
         blocks = tree.blocks
-        orders, exhaustive = linear_extensions(blocks, limit if small else ctx.scale(12, 60), rng)
+        if tall:
+            # the order of construction, and the same with each of the late competitors arriving before its rival
+            sys_limit = __import__("sys").getrecursionlimit()
+            orders, exhaustive = [list(blocks)], False
+            alt = list(blocks)
+            i1, i2 = alt.index(x1), alt.index(x2)
+            alt[i1], alt[i2] = alt[i2], alt[i1]
+            j1, j2 = alt.index(y2), alt.index(y1)
+            alt[j1], alt[j2] = alt[j2], alt[j1]
+            orders.append(alt)
+            alt2 = [x for x in blocks if x is not a and x.previous_block_hash != a.hash()]
+            # the short branch at height 99-101 arriving last of all
+            late, hs = [], {a.hash()}
+            chain_a, z = [], a
+            while z.height > 98:
+                chain_a.append(z)
+                z = tree.cs.block_by_hash[z.previous_block_hash]
+            chain_a.reverse()
+            ids_a = {z.hash() for z in chain_a}
+            orders.append([x for x in blocks if x.hash() not in ids_a] + chain_a)
+        else:
+            orders, exhaustive = linear_extensions(blocks, limit if small else ctx.scale(12, 60), rng)
         if small and not exhaustive:
             all_exhaustive = False
         res.count("trees")
@@ -175,6 +225,7 @@ def run_orders(ctx, prop):
             impl.append("ok")
             cs = CoinState.empty()
             snapshots = []
+            best_so_far = None
             for b in order:
                 ops.append("addnv s s " + hx(b.serialize()))
                 try:
@@ -186,8 +237,16 @@ def run_orders(ctx, prop):
                                 "what else is stored / on the arrival order" % e,
                         "order": [x.serialize().hex() for x in order], "arrived": order.index(b)})
                 impl.append("ok")
-                snapshots.append((cs, chain.state_digest(cs, full=False)))
-                if prop != "C04":
+                if best_so_far is None or b.height > best_so_far.height:
+                    best_so_far = b
+                if prop != "C03" and cs.current_chain_hash != best_so_far.hash():
+                    res.violations.append({"kind": "after an arrival the head is not the first-arrived block of greatest height "
+                                                   "(arrival %d, height %d)" % (order.index(b) + 1, b.height),
+                                           "order": [x.serialize().hex() for x in order[:order.index(b) + 1]]})
+                    best_so_far = cs.block_by_hash.get(cs.current_chain_hash, best_so_far)     # report once per divergence
+                if not tall or len(order) - order.index(b) <= 8 or b.height % 64 == 0:
+                    snapshots.append((cs, chain.state_digest(cs, full=False)))
+                if prop != "C04" and (not tall or 96 <= b.height <= 104 or len(order) - order.index(b) <= 8):
                     # a wallet / miner reads the balances at the head after every arrival (this also fills the caches)
                     bal = cs.public_key_balances_by_hash[cs.current_chain_hash]
                     hb = cs.block_by_hash[cs.current_chain_hash]
